@@ -58,7 +58,7 @@ def gen_spec(rng: random.Random, *, allow_wait: bool = True, allow_collect: bool
         if rng.random() < 0.3:
             sc.append(["gate"])
         for _ in range(rng.choice([0, 0, 1, 2, 3]) if (is_start or rng.random() < 0.4) else 0):
-            pool = outs + ([rng.choice(PLAIN)] if rng.random() < 0.1 else [])
+            pool = outs + ([rng.choice(PLAIN)] if rng.random() < 0.1 else []) + ([12] if rng.random() < 0.15 else [])
             if not pool:
                 break
             t = rng.choice(pool)
@@ -133,7 +133,7 @@ def gen_spec(rng: random.Random, *, allow_wait: bool = True, allow_collect: bool
         for _ in range(rng.choice([0, 0, 0, 1, 2])):
             r = rng.random()
             if r < 0.6:
-                t = rng.choice(PLAIN + [3, 3, 11, 11])
+                t = rng.choice(PLAIN + [3, 3, 11, 11, 12, 13])
                 spec["externals"].append({"op": "send", "ty": t, "k": rng.choice([None, 1, 2]), "step": None,
                                           "after_quiet": rng.randint(0, 3)})
             elif r < 0.8:
